@@ -24,6 +24,7 @@ DISTINCT_MEASURE = 'distinct (system, config class, per-round fault-kind sets) h
 PROBES = ('domain_without_examples', 'window_fully_rolled_over', 'empty_cluster_round', 'all_clients_one_cluster',
           'clip_triggered', 'clip_not_triggered', 'coefficient_hit_bound_0_or_1', 'returning_client', 'restart_between_rounds',
           'domain_absent_from_whole_window', 'frozen_leaf_nonzero_grad', 'whole_cohort_dropout')
+OPTIONAL_PROBES = ('excluded_diverged_training_round',)
 ASSUMPTIONS = [
     'ignore_grads_haiku is given haiku immutable-dict params (its documented input); with a plain dict it returns another container type and FedAvg rejects the mismatch - a container-type matter outside the stated property',
     'finite inputs; domain learning rate x loss stays far below float32 exp overflow (lr <= 1, losses < 10)',
@@ -188,6 +189,19 @@ def execute(sc):
 
     # ------------------------------------------------------------ agnostic
     if system == 'agnostic':
+      # excluded regime (DESIGN 4/C17): training that diverges makes exp(domain_lr * loss) overflow float32; nothing
+      # defines the behaviour there.  The reference per-domain mean loss at the round's starting params decides it.
+      worst = 0.0
+      for c in clients:
+        for dd in range(nd):
+          sel = c[3]['domain_id'] == dd
+          if sel.any():
+            s_, n_ = fedsim.np_loss_sum(spec['model'], prev.params, {k: v[sel] for k, v in c[3].items()})
+            worst = max(worst, s_ / n_ if np.isfinite(s_) else np.inf)
+      pmax = max(float(np.max(np.abs(np.asarray(l)))) for l in jax.tree_util.tree_leaves(prev.params))
+      if not np.isfinite(worst) or spec['domain_lr'] * worst > 20 or worst > 1e4 or not (pmax <= 1e3):
+        probes.inc('excluded_diverged_training_round')
+        break
       counts = np.zeros((nd,), np.float64)
       for c in clients:
         counts += np.bincount(c[3]['domain_id'], minlength=nd)[:nd]
